@@ -14,8 +14,12 @@ def one(p):
     return os.path.basename(p), (fired[0] if fired else "?"), rules[:6], na
 with ThreadPoolExecutor(max_workers=int(os.environ.get("J", "5"))) as ex:
     res = list(ex.map(one, patches))
+import json
+exp = json.load(open(os.path.join(V, "refactors", "EXPECTED.json"))) if os.path.exists(os.path.join(V, "refactors", "EXPECTED.json")) else {}
 bad = 0
 for name, fired, rules, na in res:
+    if name in exp and fired.strip() != "(none)" and all(r[0] == "RESIDUE" for r in rules):
+        print("%-28s expected report: %s" % (name, fired)); continue
     if na:
         print("%-28s patch does not apply" % name)
     elif fired.strip() != "(none)":
